@@ -1200,6 +1200,17 @@ func (fv *FV) lockOp(st *State, op string, recvExpr ast.Expr, c *ast.CallExpr) {
 	if op == "Lock" {
 		fv.oblige(st, "lock.notheld["+fv.src(c)+"]", not(sel(held, owner.S)), "the mutex is not acquired twice (self-deadlock)", nil, c.Pos())
 		fv.heapSet(st, "L:held", sto(held, owner.S, "true"))
+		// one critical section per call: the argument that every concurrent history is equivalent to a sequential one
+		// (each method takes effect atomically, in lock-acquisition order) needs each method to acquire the object's
+		// mutex at most once; acq[x] counts the acquisitions made by this call
+		fv.compSort["L:acq"] = arr(sInt, sInt)
+		if !fv.declared["L:acq:init"] {
+			fv.declared["L:acq:init"] = true
+			fv.axioms = append(fv.axioms, eq(fv.heapGet(fv.entry, "L:acq"), "((as const (Array Int Int)) 0)"))
+		}
+		acq := fv.heapGet(st, "L:acq")
+		fv.oblige(st, "lock.once["+fv.src(c)+"]", eq(sel(acq, owner.S), "0"), "the mutex is acquired at most once per call (one critical section: the method is atomic)", nil, c.Pos())
+		fv.heapSetNoFrame(st, "L:acq", sto(acq, owner.S, app("+", sel(acq, owner.S), "1")))
 		return
 	}
 	fv.oblige(st, "lock.held["+fv.src(c)+"]", sel(held, owner.S), "Unlock of a mutex that is held", nil, c.Pos())
